@@ -84,6 +84,40 @@ def _E():
 
 
 # ------------------------------------------------------------------------------------------ menus
+def _sokoban_open_generator():
+    """Like the random-level generator below but WITHOUT the ring of border walls: boxes, targets and the agent may
+    touch the edge of the 10x10 grid (the environment has explicit in-grid checks for exactly this case)."""
+    import chex
+    import jax
+    import jax.numpy as jnp
+
+    from jumanji.environments.routing.sokoban.generator import Generator
+
+    class OpenLevels(Generator):
+        def __call__(self, rng_key: chex.PRNGKey):
+            from jumanji.environments.routing.sokoban.types import State
+
+            k1, k2, key = jax.random.split(rng_key, 3)
+            order = jax.random.permutation(k1, 100)
+            rank = jnp.zeros(100, jnp.int32).at[order].set(jnp.arange(100))
+            nwalls = jax.random.randint(k2, (), 0, 10)
+            fixed = jnp.zeros(100, jnp.uint8)
+            fixed = jnp.where((rank >= 9) & (rank < 9 + nwalls), 1, fixed)
+            fixed = jnp.where(rank < 4, 2, fixed).astype(jnp.uint8)
+            variable = jnp.zeros(100, jnp.uint8)
+            variable = jnp.where((rank >= 4) & (rank < 8), 4, variable)
+            variable = jnp.where(rank == 8, 3, variable).astype(jnp.uint8)
+            agent = order[8]
+            return State(key=key, fixed_grid=fixed.reshape(10, 10), variable_grid=variable.reshape(10, 10),
+                         agent_location=jnp.array([agent // 10, agent % 10], jnp.int32),
+                         step_count=jnp.array(0, jnp.int32))
+
+        def get_solutions(self, *a, **k):  # pragma: no cover - not used
+            raise NotImplementedError
+
+    return OpenLevels()
+
+
 def _sokoban_random_generator():
     """Harness-side subclass of the public abstract Generator: random 10x10 levels with border
     walls, a few interior walls, 4 targets, 4 boxes and the agent on distinct free cells."""
@@ -153,7 +187,7 @@ def _menus():
     for b in (2, 3, 4, 5):
         add("Game2048", f"b{b}", lambda b=b, **k: E.Game2048(board_size=b), board=b)
     from jumanji.environments.logic.graph_coloring.generator import RandomGenerator as GCGen
-    for n, p in ((3, 0.8), (5, 0.3), (8, 0.8), (20, 0.8), (20, 0.3), (6, 0.8)):
+    for n, p in ((3, 0.8), (5, 0.3), (8, 0.8), (20, 0.8), (20, 0.3), (6, 0.8), (40, 0.3)):
         add("GraphColoring", f"n{n}p{int(p*10)}",
             lambda n=n, p=p, **k: E.GraphColoring(generator=GCGen(num_nodes=n, edge_probability=p)))
     from jumanji.environments.logic.minesweeper.generator import UniformSamplingGenerator as MSGen
@@ -248,7 +282,7 @@ def _menus():
                                                        reward_fn=BlockDenseReward()), reward="block")
     from jumanji.environments.packing.job_shop import generator as jsg
     add("JobShop", "toy", lambda **k: E.JobShop(generator=jsg.ToyGenerator()))
-    for j, mch, o, d in ((3, 2, 3, 2), (5, 4, 4, 4), (20, 10, 8, 6), (4, 3, 2, 5)):
+    for j, mch, o, d in ((3, 2, 3, 2), (5, 4, 4, 4), (20, 10, 8, 6), (4, 3, 2, 5), (40, 4, 3, 4)):
         add("JobShop", f"j{j}m{mch}o{o}d{d}",
             lambda j=j, mch=mch, o=o, d=d, **k: E.JobShop(generator=jsg.RandomGenerator(j, mch, o, d)),
             jobs=j, machines=mch, ops=o, dur=d)
@@ -399,10 +433,10 @@ def _menus():
             rows=r, cols=c, time_limit=t)
     from jumanji.environments.routing.sokoban import generator as skg
     for gen, t in (("toy", 120), ("simple", 7), ("random", 3), ("random", 120), ("toy", 2), ("simple", 1),
-                   ("random", 30), ("simple", 120), ("simple", 10)):
+                   ("random", 30), ("simple", 120), ("simple", 10), ("open", 60)):
         def sk(gen=gen, t=t, time_limit=None, **k):
             g = {"toy": skg.ToyGenerator, "simple": skg.SimpleSolveGenerator,
-                 "random": _sokoban_random_generator}[gen]()
+                 "random": _sokoban_random_generator, "open": _sokoban_open_generator}[gen]()
             return E.Sokoban(generator=g, time_limit=t if time_limit is None else time_limit)
         add("Sokoban", f"{gen}t{t}", sk, gen=gen, time_limit=t)
     from jumanji.environments.routing.tsp.generator import UniformGenerator as TSGen
@@ -426,15 +460,15 @@ def entries(env: str) -> list:
 
 # entry ids are static strings: listing them must not require importing jumanji in the parent
 QUICK = {
-    "Game2048": ["b3", "b4"], "GraphColoring": ["n6p8", "n20p8"], "Minesweeper": ["r3c5m3", "default", "r2c2m1"],
+    "Game2048": ["b3", "b4"], "GraphColoring": ["n6p8", "n20p8", "n40p3"], "Minesweeper": ["r3c5m3", "default", "r2c2m1"],
     "RubiksCube": ["n2s1t3", "n3s7t7"], "SlidingTilePuzzle": ["g3m50t7d", "g2m1t3s"],
     "Sudoku": ["veryeasy", "dummy", "veryeasy_u8"], "BinPack": ["r10e20s2", "r5e10s1o6"], "FlatPack": ["r2c3b", "r3c2c"],
-    "JobShop": ["j3m2o3d2", "j5m4o4d4"], "Knapsack": ["n10s", "n50d", "q8d"], "Tetris": ["r6c5t400", "r10c10t400"],
+    "JobShop": ["j3m2o3d2", "j5m4o4d4", "j40m4o3d4"], "Knapsack": ["n10s", "n50d", "q8d"], "Tetris": ["r6c5t400", "r10c10t400"],
     "Cleaner": ["r3c7a1t7", "r5c11a2tNone", "r3c3a2tNone"], "Connector": ["g5a2t7rw", "g6a3t50rw"],
     "CVRP": ["n5s", "n20d"], "LevelBasedForaging": ["g6a2f2v2l2cVNp0t100", "g8a3f3v3l3nGRp5t100", "g7a2f3v7l2nGRp0t40", "g5a3f1v5l2nVNp0t40"],
     "Maze": ["r4c7tNone", "r5c5t7"], "MMST": ["n12e18a2k3t7", "n12e18a3k2t30"], "MultiCVRP": ["c6v2d", "c6v3s"],
     "PacMan": ["t40", "small200", "tunnel60"], "RobotWarehouse": ["s1x3h3a2r1q2t500", "s1x3h2a1r1q1t7"],
-    "Snake": ["r6c4t7", "r3c3t4000"], "Sokoban": ["simplet120", "randomt120", "simplet10"], "TSP": ["n5d", "n3d"],
+    "Snake": ["r6c4t7", "r3c3t4000"], "Sokoban": ["simplet120", "randomt120", "simplet10", "opent60"], "TSP": ["n5d", "n3d"],
 }
 
 
